@@ -389,4 +389,68 @@ theorem streamed_limit_stops (p : Plan) (rs : ResSt) (h : limitReached p rs = tr
 theorem no_streamed_limit (p : Plan) (h : p.q.isBuffered = true ∨ p.q.limit = 0) (rs : ResSt) :
     limitReached p rs = false := noLimit_false p h rs
 
+/-! ### LIMIT over grouped rows (D85 fix)
+
+`finish` sorts the group rows, splits them into runs of ties and hands the run lengths to `cutRuns`; the rows
+printed are `rows.take (kept runs).sum`, of which the implementation shows all but part of the last run. -/
+
+/-- the runs that are kept are the first runs of the sorted result, in order -/
+theorem grouped_limit_keeps_prefix (lim : Nat) (runs : List Nat) : (cutRuns lim runs).1 <+: runs := by
+  induction runs generalizing lim with
+  | nil => simp [cutRuns]
+  | cons r rs ih =>
+    unfold cutRuns
+    split
+    · exact ⟨rs, by simp⟩
+    · split
+      · exact ⟨rs, by simp⟩
+      · obtain ⟨t, ht⟩ := ih (lim - r)
+        exact ⟨t, by simp [ht]⟩
+
+/-- **the cut falls on a run boundary** (`cut = 0`): what is kept has at most `lim` rows, and exactly `lim` unless
+    everything is kept — `min(lim, rows)` rows are shown, and they are the first ones -/
+theorem grouped_limit_on_boundary (lim : Nat) (runs : List Nat) (hl : 0 < lim) (h : (cutRuns lim runs).2 = 0) :
+    (cutRuns lim runs).1.sum ≤ lim ∧ ((cutRuns lim runs).1.sum = lim ∨ (cutRuns lim runs).1 = runs) := by
+  induction runs generalizing lim with
+  | nil => simp [cutRuns]
+  | cons r rs ih =>
+    by_cases h1 : lim < r
+    · simp [cutRuns, h1] at h; omega
+    · by_cases h2 : lim = r
+      · subst h2
+        simp [cutRuns]
+      · have hpos : 0 < lim - r := by omega
+        have e : cutRuns lim (r :: rs) = (r :: (cutRuns (lim - r) rs).1, (cutRuns (lim - r) rs).2) := by
+          simp [cutRuns, h1, h2]
+        rw [e] at h ⊢
+        have := ih (lim - r) hpos h
+        simp only [List.sum_cons]
+        refine ⟨by omega, ?_⟩
+        rcases this.2 with h3 | h3
+        · left; omega
+        · right; rw [h3]
+
+/-- **the cut falls inside a run of ties** (`cut = c > 0`): the kept runs are whole runs holding fewer than `lim` rows,
+    followed by the run that straddles the cut, of which `c` rows are shown — `lim` rows in all; which rows of that run
+    is not determined (the property allows any resolution of a tie at the cut) -/
+theorem grouped_limit_inside_run (lim : Nat) (runs : List Nat) (h : (cutRuns lim runs).2 ≠ 0) :
+    ∃ pre r, (cutRuns lim runs).1 = pre ++ [r] ∧ pre.sum + (cutRuns lim runs).2 = lim ∧ (cutRuns lim runs).2 < r := by
+  induction runs generalizing lim with
+  | nil => simp [cutRuns] at h
+  | cons r rs ih =>
+    by_cases h1 : lim < r
+    · exact ⟨[], r, by simp [cutRuns, h1], by simp [cutRuns, h1], by simp [cutRuns, h1]⟩
+    · by_cases h2 : lim = r
+      · subst h2
+        simp [cutRuns] at h
+      · have e : cutRuns lim (r :: rs) = (r :: (cutRuns (lim - r) rs).1, (cutRuns (lim - r) rs).2) := by
+          simp [cutRuns, h1, h2]
+        rw [e] at h ⊢
+        obtain ⟨pre, r', e1, e2, e3⟩ := ih (lim - r) h
+        refine ⟨r :: pre, r', by simp [e1], ?_, e3⟩
+        simp only [List.sum_cons]
+        omega
+
+example : cutRuns 3 [2, 2, 1] = ([2, 2], 1) ∧ cutRuns 4 [2, 2, 1] = ([2, 2], 0) ∧ cutRuns 9 [2, 2, 1] = ([2, 2, 1], 0) := by decide
+
 end Fsel.C06
